@@ -420,3 +420,23 @@ func TestC12ConcurrentBuilds(t *testing.T) {
 func TestC17ConcurrentBuilds(t *testing.T) {
 	concurrentRounds(t, "C17", concurrentFilterSizes, "7 goroutines building filter-mode indexes that share node shapes; every size must equal the size of the same build alone")
 }
+
+// Independent readers: lookups on separate tries at the same time, one goroutine per
+// trie, every answer checked against that trie's own model (C01, C09, C10, C14).
+const independentReadersNote = "8 goroutines, each reading a trie that only it uses (four information levels, I8..I64 values, half of them loaded from bytes); every Get/GetID/RangeGet/Search/typed getter answer is checked against that trie's model"
+
+func TestC01IndependentReaders(t *testing.T) {
+	concurrentRounds(t, "C01", independentReaders, independentReadersNote)
+}
+
+func TestC09IndependentReaders(t *testing.T) {
+	concurrentRounds(t, "C09", independentReaders, independentReadersNote)
+}
+
+func TestC10IndependentReaders(t *testing.T) {
+	concurrentRounds(t, "C10", independentReaders, independentReadersNote)
+}
+
+func TestC14IndependentReaders(t *testing.T) {
+	concurrentRounds(t, "C14", independentReaders, independentReadersNote)
+}
